@@ -11,6 +11,7 @@
                             checkOnce(t, prop): the error of the test case and the words the stream has handed out (`s.data`)
     findBug checks seed     findBug(tb, deadline, checks, seed, prop)  (translated and proved on its own: TranslatedEngineEq)
     shrink err              shrink(tb, shrinkDeadline(deadline), s.recordedBits, err, prop) on the recording of the last `once`
+    pruned                  s.rec = s2.recordedBits; s.rec.prune() (shrinker.accept): the pruned words of the last `once`
 
   A `*testError` is the model's `Option Err` (`err == nil`, `err.isInvalidData()`, `sameError(a, b)` are the model's);
   logging, `tb.Helper()` and the assertion that the TB has not failed yet are not translated.
@@ -18,6 +19,7 @@
 import RapidModel.GoImp
 import RapidModel.GoProg
 import RapidModel.Engine
+import RapidModel.Rec
 
 namespace Rapid.Go
 
@@ -40,6 +42,7 @@ inductive CScript (α : Type) where
   | once (s : SSpec) (k : ErrV × List UInt64 → CScript α)
   | findBug (checks : Int64) (seed : UInt64) (k : Int64 × Int64 × Bool × UInt64 × ErrV → CScript α)
   | shrink (err : ErrV) (k : List UInt64 × ErrV → CScript α)
+  | pruned (k : Option (List UInt64) → CScript α)
 
 def CScript.bind {α β : Type} : CScript α → (α → CScript β) → CScript β
   | .ret a, f => f a
@@ -48,6 +51,7 @@ def CScript.bind {α β : Type} : CScript α → (α → CScript β) → CScript
   | .once s k, f => .once s fun x => (k x).bind f
   | .findBug c s k, f => .findBug c s fun x => (k x).bind f
   | .shrink e k, f => .shrink e fun x => (k x).bind f
+  | .pruned k, f => .pruned fun x => (k x).bind f
 
 def CM (α : Type) : Type := CScript (Except Panic α)
 
@@ -73,6 +77,12 @@ def once (s : SSpec) : CM (ErrV × List UInt64) := CScript.once s fun x => CScri
 def findBug (checks : Int64) (seed : UInt64) : CM (Int64 × Int64 × Bool × UInt64 × ErrV) :=
   CScript.findBug checks seed fun x => CScript.ret (.ok x)
 def shrink (err : ErrV) : CM (List UInt64 × ErrV) := CScript.shrink err fun x => CScript.ret (.ok x)
+/-- `s.rec = s2.recordedBits; s.rec.prune()`: the pruned words of the recording of the last test case; the assertion of `prune`
+    (a kept group that used no data) is a panic -/
+def pruned : CM (List UInt64) :=
+  CScript.pruned fun x => match x with
+    | some d => CScript.ret (.ok d)
+    | none => CScript.ret (.error .assertion)
 def andThen (a b : CM Bool) : CM Bool := a >>= fun x => if x then b else pure false
 def orElse (a b : CM Bool) : CM Bool := a >>= fun x => if x then pure true else b
 
@@ -109,5 +119,9 @@ def CScript.run {α : Type} (E : CEnv) : CScript α → Option Once → α × Op
     match o with
     | some r => (k (shrinkWith E.p ⟨r.kept, e⟩ E.cands)).run E o
     | none => (k ([], none)).run E o
+  | .pruned k, o =>
+    match o with
+    | some r => (k (if (prunedOfToks r.toks).noEmptyGroup then some (prunedOfToks r.toks).data else none)).run E o
+    | none => (k none).run E o
 
 end Rapid.Go
